@@ -117,14 +117,14 @@ func errClass(err error) int {
 	return 2
 }
 
-func runOne(w *cl.World, t *builtTree, c *Case) (*Result, error) {
-	dir, err := os.MkdirTemp("", "c12-node-")
-	if err != nil {
+// The node's LevelDB stays open until the child exits: the node's background goroutines (casper's
+// verification loop) keep reading it and panic on a closed database.
+func runOne(w *cl.World, t *builtTree, c *Case, base string) (*Result, error) {
+	dir := filepath.Join(base, fmt.Sprintf("node_%d", c.ID))
+	if err := os.MkdirAll(dir, 0755); err != nil {
 		return nil, err
 	}
-	defer os.RemoveAll(dir)
 	db := dbm.NewDB("core", "leveldb", dir)
-	defer db.Close()
 	store := database.NewStore(db)
 	disp := event.NewDispatcher()
 	pool := protocol.NewTxPool(store, disp)
@@ -163,11 +163,12 @@ func runOne(w *cl.World, t *builtTree, c *Case) (*Result, error) {
 	return r, nil
 }
 
-// child batch <file>: prints "BEGIN <id>" before and one JSON result line after every case.
+// child batch <file> <scratch dir>: prints "BEGIN <id>" before and one JSON result line after every case.
 func childBatch(args []string) int {
-	if len(args) != 1 {
+	if len(args) != 2 {
 		return 2
 	}
+	base := args[1]
 	raw, err := os.ReadFile(args[0])
 	if err != nil {
 		fmt.Fprintln(os.Stderr, err)
@@ -188,7 +189,7 @@ func childBatch(args []string) int {
 		if k := c.treeKey(); k != lastKey || tree == nil {
 			tree, lastKey = buildTree(w, c), k
 		}
-		r, err := runOne(w, tree, c)
+		r, err := runOne(w, tree, c, base)
 		if err != nil {
 			fmt.Fprintln(os.Stderr, "harness child error:", err)
 			return 3
@@ -222,7 +223,8 @@ func runChunk(dir string, k int, cases []*Case, res map[int]*Result, mu *sync.Mu
 		if err := os.WriteFile(f, js, 0644); err != nil {
 			return err
 		}
-		cmd := exec.Command(os.Args[0], "child", "batch", f)
+		base := filepath.Join(dir, fmt.Sprintf("nodes_%d_%d", k, len(cases)))
+		cmd := exec.Command(os.Args[0], "child", "batch", f, base)
 		var stderr bytes.Buffer
 		cmd.Stderr = &stderr
 		stdout, err := cmd.StdoutPipe()
@@ -271,6 +273,7 @@ func runChunk(dir string, k int, cases []*Case, res map[int]*Result, mu *sync.Mu
 			}
 		}
 		err = cmd.Wait()
+		os.RemoveAll(base)
 		if err == nil && !hang && done == len(cases) {
 			return nil
 		}
@@ -319,7 +322,12 @@ func panicHead(trace string) string {
 }
 
 func runAll(cases []*Case) (map[int]*Result, error) {
-	dir, err := os.MkdirTemp("", "c12-run-")
+	// scratch LevelDB directories: on tmpfs when there is one (the store syncs every block)
+	tmp := ""
+	if st, err := os.Stat("/dev/shm"); err == nil && st.IsDir() {
+		tmp = "/dev/shm"
+	}
+	dir, err := os.MkdirTemp(tmp, "c12-run-")
 	if err != nil {
 		return nil, err
 	}
@@ -328,9 +336,9 @@ func runAll(cases []*Case) (map[int]*Result, error) {
 	res := map[int]*Result{}
 	var mu sync.Mutex
 	var chunks [][]*Case
-	per := 40
-	if len(cases) > 4000 {
-		per = 150
+	per := 60
+	if len(cases) > 6000 {
+		per = 250
 	}
 	for lo := 0; lo < len(cases); lo += per {
 		hi := lo + per
@@ -456,6 +464,39 @@ func permutations(n int) [][]int {
 		}
 	}
 	rec(0)
+	return out
+}
+
+// upToSymmetry keeps one delivery order per orbit of the tree's automorphism group: the tree with every
+// node annotated by its delivery position is encoded canonically (children codes sorted).
+func upToSymmetry(parents []int, perms [][]int) [][]int {
+	n := len(parents)
+	kids := make([][]int, n+1)
+	for i, p := range parents {
+		kids[p] = append(kids[p], i+1)
+	}
+	seen := map[string]bool{}
+	var out [][]int
+	pos := make([]int, n+1)
+	var code func(x int) string
+	code = func(x int) string {
+		var cs []string
+		for _, k := range kids[x] {
+			cs = append(cs, code(k))
+		}
+		sort.Strings(cs)
+		return "(" + strconv.Itoa(pos[x]) + strings.Join(cs, "") + ")"
+	}
+	for _, p := range perms {
+		for i, l := range p {
+			pos[l] = i + 1
+		}
+		k := code(0)
+		if !seen[k] {
+			seen[k] = true
+			out = append(out, p)
+		}
+	}
 	return out
 }
 
@@ -723,9 +764,10 @@ func runC12(c *Ctx) error {
 	add("corpus", []int{0, 0, 0, 0}, zeros(4), []int{1, 2, 3, 4})
 	add("corpus", []int{0, 1, 2, 2, 2, 1}, []int{0, 0, 1, 0, 0, 0}, []int{3, 4, 5, 6, 2, 1})
 
-	// exhaustive: all delivery orders of all tree shapes
-	maxN := c.N(5, 6)
-	for n := 1; n <= maxN; n++ {
+	// exhaustive: all delivery orders of all tree shapes with at most 5 blocks; thorough adds 6 blocks (and
+	// the 7-block shapes with many symmetries) up to tree automorphisms: two orders that differ by a
+	// symmetry of the tree (swapping isomorphic sibling subtrees) are one case
+	for n := 1; n <= 5; n++ {
 		perms := permutations(n)
 		for _, shape := range treeShapes(n, 4) {
 			for _, p := range perms {
@@ -734,17 +776,30 @@ func runC12(c *Ctx) error {
 		}
 	}
 	c.Stats.Exhaustive = true
-	c.Stats.Extra["exhaustive_scope"] = fmt.Sprintf("all delivery orders of all rooted tree shapes with 1..%d blocks and at most 4 children per block (all blocks valid, each delivered once)", maxN)
-
-	// seven blocks: all shapes, sampled orders (thorough: every shape with a block of >= 3 children gets all
-	// orders in which those children precede it is too many; sample uniformly and adversarially)
+	scope := "all delivery orders (each block once) of all rooted tree shapes with 1..5 blocks and at most 4 children per block, all blocks valid"
 	if c.Thorough() {
+		perms6, perms7 := permutations(6), permutations(7)
+		for _, shape := range treeShapes(6, 4) {
+			for _, p := range upToSymmetry(shape, perms6) {
+				add("exhaustive_6", shape, zeros(6), p)
+			}
+		}
+		full7 := 0
 		for _, shape := range treeShapes(7, 4) {
+			if classes := upToSymmetry(shape, perms7); len(classes) <= 420 {
+				full7++
+				for _, p := range classes {
+					add("exhaustive_7", shape, zeros(7), p)
+				}
+				continue
+			}
 			for k := 0; k < 24; k++ {
 				add("sampled_7", shape, zeros(7), randomOrder(c.Rng, shape, k%4))
 			}
 		}
+		scope += fmt.Sprintf("; all delivery orders up to tree automorphism of all shapes with 6 blocks, and of the %d shapes with 7 blocks that have at least 12 automorphisms (the other 7-block shapes: 24 sampled orders each)", full7)
 	}
+	c.Stats.Extra["exhaustive_scope"] = scope
 
 	// random orders of larger trees, some with invalid blocks
 	nbig := c.N(60, 400)
